@@ -17,14 +17,22 @@ def enc_dict(d, f=int):
 def make_manager(script, randomize=False):
     from abmarl.managers import AllStepManager, TurnBasedManager, DynamicOrderManager
     kind = script[0]
+    sim = stubsim.DynScriptSim(script) if kind == 2 else stubsim.ScriptSim(script)
+    # a third of the scripts: the LAST agent joins the simulation's agents dictionary only after the
+    # manager has been built (before the first reset); the manager works on the simulation's agents
+    # as they are when an episode starts
+    late = None
+    if stubsim._checksum(script[3]) % 3 == 0 and script[1] >= 2:
+        late = sim.agents.popitem()
     if kind == 0:
-        sim = stubsim.ScriptSim(script)
-        return sim, AllStepManager(sim, randomize_action_input=bool(randomize))
-    if kind == 1:
-        sim = stubsim.ScriptSim(script)
-        return sim, TurnBasedManager(sim)
-    sim = stubsim.DynScriptSim(script)
-    return sim, DynamicOrderManager(sim)
+        mgr = AllStepManager(sim, randomize_action_input=bool(randomize))
+    elif kind == 1:
+        mgr = TurnBasedManager(sim)
+    else:
+        mgr = DynamicOrderManager(sim)
+    if late is not None:
+        sim.agents[late[0]] = late[1]
+    return sim, mgr
 
 
 class Recorder:
